@@ -51,6 +51,8 @@ def observe(spec, inputs):
         cur = c0
         for r in added:
             try:
+                cur.ge_polyhedron
+                cur.leafs()
                 cur = cur.add(plspec.build(n, r, env))
             except Exception as e:   # noqa
                 out["raised"] = "%s: %s" % (type(e).__name__, e)
